@@ -8,11 +8,30 @@
 (*   Fetch(r, a) / FetchErr attestationDataProvider.AttestationData returns data a / an error   *)
 (*   Validate(r, pass)      validateAttestationData                                             *)
 (*   Accounts(r, A) / AccountsErr   ValidatingAccountsForEpochByIndex returns accounts for A    *)
-(*   Sign(r, req, sd, Z, ok)        SignBeaconAttestations is asked for req (validator,         *)
-(*                          committee index pairs) over data sd; Z = zero signatures returned   *)
+(*   SignCall(r, req, sd)   SignBeaconAttestations is asked for req (validator, committee      *)
+(*                          index pairs) over data sd ...                                       *)
+(*   SignRet(r, Z, ok)      ... and answers (Z = zero signatures returned) or fails             *)
 (*   Build(r, A)            createAttestations yields the attestations A                        *)
-(*   Submit(r, ok)          SubmitAttestations                                                  *)
+(*   SubmitCall(r)          SubmitAttestations is handed the attestations ...                   *)
+(*   SubmitRet(r, ok)       ... and returns                                                     *)
 (*   Housekeep(r, P)        housekeepAttestedMap + return (P = entries dropped)                 *)
+(*                                                                                              *)
+(* THE INSTANCE AND ITS HISTORY.  A behaviour is the history of ONE long-lived Service: the      *)
+(* controller starts one AttestAndScheduleAggregate goroutine per slot against the same         *)
+(* attester, and a job whose signer or beacon node is slow is still under way when the next     *)
+(* slot's job starts (or starts early on a head event).  Runs therefore OVERLAP: every call the *)
+(* service makes on one of its interfaces is a pair of actions (Fetch, Accounts: the reply      *)
+(* step; signer and submitter: call and return apart), and between any two actions of a run any *)
+(* number of actions of other runs - whole runs, with any duty, any outcome - may take place.   *)
+(* The ONLY state of the instance that one run may leave for another is `attested` (C01 makes   *)
+(* it persistent: who has been signed for in an epoch).  Everything a run asks of the signer    *)
+(* and hands to the submitter is a function of that run's OWN duty, of the data IT fetched, the *)
+(* accounts IT was given and the signatures IT received (ExpectedReq, SignData, ExpectedAtt     *)
+(* read nothing but run[r]): history-independent.  The invariants below are stated over the     *)
+(* histories signReq / submitted, i.e. for EVERY call of the history.  A design that keeps more *)
+(* on the instance (retained per-validator arrays, a memo of committee sizes, the duty "being   *)
+(* worked on") is right on every fresh instance and in every sequential history as long as it   *)
+(* rewrites what it reads; AttesterScratch.tla is such a design and TLC must reject it.         *)
 (*                                                                                              *)
 (* C01: NoDoubleSign, NoDoubleVote, SignedDataSound, RefusedMeansNoSign, AttestedMonotone.      *)
 (* C04: AssignmentExact, SignAssignmentExact, UnsignedYieldNothing.                             *)
@@ -161,22 +180,30 @@ AccountsErr(r) ==
     /\ run' = [run EXCEPT ![r].pc = "ret"]
     /\ UNCHANGED <<attested, signReq, submitted, horizon>>
 
-(* The signer is asked to sign for the <<validator, committee>> pairs req over the data sd; it  *)
-(* answers with zero signatures for Z, or with an error (a request all the same).               *)
-Sign(r, req, sd, Z, ok) ==
+(* The signer is asked to sign for the <<validator, committee>> pairs req over the data sd      *)
+(* (SignCall); while it works (pc = "signing": a remote signer takes its time) other runs go    *)
+(* on; it answers with zero signatures for Z, or with an error - a request all the same         *)
+(* (SignRet).                                                                                   *)
+SignCall(r, req, sd) ==
     LET rr == run[r] IN
     /\ rr.pc = "sign"
     /\ ReqVals(req) \subseteq rr.accts
     /\ Cardinality(ReqVals(req)) = Cardinality(req)
-    /\ Z \subseteq ReqVals(req)
     /\ Strict01 => /\ ReqVals(req) \subseteq rr.claimed
                    /\ DataOK(rr.duty, sd)
     /\ Strict04 => /\ req = ExpectedReq(rr)
                    /\ sd = SignData(rr)
     /\ signReq' = signReq \cup {[run |-> r, duty |-> rr.duty, dslot |-> rr.duty.slot, fetched |-> rr.data, req |-> req, data |-> sd]}
-    /\ run' = [run EXCEPT ![r].pc = IF ok THEN "build" ELSE "ret", ![r].req = req, ![r].sd = sd,
-                          ![r].zero = IF ok THEN Z ELSE ReqVals(req)]
+    /\ run' = [run EXCEPT ![r].pc = "signing", ![r].req = req, ![r].sd = sd]
     /\ UNCHANGED <<attested, submitted, horizon>>
+
+SignRet(r, Z, ok) ==
+    LET rr == run[r] IN
+    /\ rr.pc = "signing"
+    /\ Z \subseteq ReqVals(rr.req)
+    /\ run' = [run EXCEPT ![r].pc = IF ok THEN "build" ELSE "ret",
+                          ![r].zero = IF ok THEN Z ELSE ReqVals(rr.req)]
+    /\ UNCHANGED <<attested, signReq, submitted, horizon>>
 
 (* createAttestations.  The property says what a submitted attestation must look like and that  *)
 (* unsigned validators yield none; it does not oblige every signed validator to be submitted.   *)
@@ -189,13 +216,19 @@ Build(r, A) ==
     /\ run' = [run EXCEPT ![r].pc = IF A = {} THEN "ret" ELSE "submit", ![r].atts = A]
     /\ UNCHANGED <<attested, signReq, submitted, horizon>>
 
-Submit(r, ok) ==
+\* the attestations are handed to the submitter (SubmitCall) ... and it returns (SubmitRet)
+SubmitCall(r) ==
     LET rr == run[r] IN
     /\ rr.pc = "submit"
     /\ submitted' = submitted \cup {[run |-> r, duty |-> rr.duty, fetched |-> rr.data,
                                      signed |-> Signed(rr), att |-> a] : a \in rr.atts}
-    /\ run' = [run EXCEPT ![r].pc = "ret"]
+    /\ run' = [run EXCEPT ![r].pc = "submitting"]
     /\ UNCHANGED <<attested, signReq, horizon>>
+
+SubmitRet(r, ok) ==
+    /\ run[r].pc = "submitting"
+    /\ run' = [run EXCEPT ![r].pc = "ret"]
+    /\ UNCHANGED <<attested, signReq, submitted, horizon>>
 
 \* housekeepAttestedMap and the return of Attest: only entries older than epoch-1 may go (and the
 \* run's own marks if it never reached the signer)
@@ -223,9 +256,11 @@ NextWith(Duties, Lean) ==
         \/ \E pass \in BOOLEAN : Validate(r, pass)
         \/ \E A \in SUBSET run[r].claimed : Accounts(r, A)
         \/ AccountsErr(r)
-        \/ \E Z \in SUBSET run[r].accts, ok \in BOOLEAN : Sign(r, ExpectedReq(run[r]), SignData(run[r]), Z, ok)
+        \/ SignCall(r, ExpectedReq(run[r]), SignData(run[r]))
+        \/ \E Z \in SUBSET ReqVals(run[r].req), ok \in BOOLEAN : SignRet(r, Z, ok)
         \/ \E S \in Choice(Lean, Signed(run[r])) : Build(r, {ExpectedAtt(run[r].duty, v, run[r].data) : v \in S})
-        \/ \E ok \in BOOLEAN : Submit(r, ok)
+        \/ SubmitCall(r)
+        \/ \E ok \in BOOLEAN : SubmitRet(r, ok)
         \/ \E P \in Choice(Lean, OldPairs(run[r])) \cup {{}} : Housekeep(r, P)
         \/ \E P \in Choice(Lean, OwnUnsigned(r)) : Housekeep(r, P)
 
